@@ -102,7 +102,7 @@ def m_reach(E, fr, args):
     if E.merge_depth: raise MergeAbort('reach in merged call')
     if tag not in E.reached:
         if E.check_uncached():   # not cached: whether this query runs depends on earlier paths
-            E.reached[tag] = E.model_values(E.solver.model())
+            E.reached[tag] = E.model_values(E.model())
     E.reach_count[tag] = E.reach_count.get(tag, 0) + 1
 
 def m_note(E, fr, args):
